@@ -13,7 +13,7 @@
 //! tapes (one per tape of the case, cleared together with it) and repeats every operation element
 //! by element in row-major order of the view.
 
-use crate::c04::{binary_fn, show_list, two, unary_fn, El, Rc, TapeBox, F1, F2};
+use crate::c04::{binary_fn, show_list, three, two, unary_fn, El, Rc, TapeBox, F1, F2};
 use crate::exact::{Fp, Rat};
 use crate::util::*;
 use easy_ml::differentiation::record_operations::SwappedOperations;
@@ -755,6 +755,65 @@ where
     }
 }
 
+/// `(f, f')` for `unary` / `unary_assign`: the functions of c04.rs, each closure additionally
+/// capturing a `Record` that refers to the operand's WengertList (its number, one, is multiplied
+/// in) — the closure bounds of the container entry points must accept such closures;
+/// `boom.<n>`: `cube` whose `f` panics at its `n`-th call.
+pub fn ufn_pair<T>(name: &str, list: Option<&'static WengertList<T>>) -> (F1<T>, F1<T>)
+where
+    T: Elt,
+    for<'a> &'a T: NumericRef<T>,
+{
+    let cap: Rc<T> = Record::from_existing((T::one(), 0), list);
+    let cap2 = cap.clone();
+    if let Some(n) = name.strip_prefix("boom.") {
+        let n: usize = n.parse().expect("count");
+        let calls = std::cell::Cell::new(0usize);
+        let (f, df) = unary_fn::<T>("cube");
+        return (
+            Box::new(move |x: T| {
+                let c = calls.get();
+                calls.set(c + 1);
+                if c == n {
+                    panic!("harness: the closure panics at this element");
+                }
+                f(x) * cap.number.clone()
+            }),
+            Box::new(move |x: T| df(x) * cap2.number.clone()),
+        );
+    }
+    let (f, df) = unary_fn::<T>(name);
+    (Box::new(move |x: T| f(x) * cap.number.clone()), Box::new(move |x: T| df(x) * cap2.number.clone()))
+}
+
+/// the same for `binary` and its assigning forms (`boom.<n>`: `psq`)
+pub fn bfn_cap<T>(name: &str, list: Option<&'static WengertList<T>>) -> (F2<T>, F2<T>, F2<T>)
+where
+    T: Elt,
+    for<'a> &'a T: NumericRef<T>,
+{
+    let cap: Rc<T> = Record::from_existing((T::one(), 0), list);
+    let (cap2, cap3) = (cap.clone(), cap.clone());
+    let (boom, base) = match name.strip_prefix("boom.") {
+        Some(n) => (Some(n.parse::<usize>().expect("count")), "psq"),
+        None => (None, name),
+    };
+    let (f, dfx, dfy) = bfn_triple::<T>(base);
+    let calls = std::cell::Cell::new(0usize);
+    (
+        Box::new(move |x: T, y: T| {
+            let c = calls.get();
+            calls.set(c + 1);
+            if Some(c) == boom {
+                panic!("harness: the closure panics at this element");
+            }
+            f(x, y) * cap.number.clone()
+        }),
+        Box::new(move |x: T, y: T| dfx(x, y) * cap2.number.clone()),
+        Box::new(move |x: T, y: T| dfy(x, y) * cap3.number.clone()),
+    )
+}
+
 pub const BFNS: [&str; 7] = ["add", "sub", "mul", "div", "axy", "wsum", "psq"];
 pub const RECFNS_PLAIN: [&str; 5] = ["id", "sq", "aff", "konst", "half"];
 pub const RECFNS_INDEXED: [&str; 2] = ["alt", "scale"];
@@ -780,6 +839,25 @@ where
         "half" => Box::new(|_k, x| if x.number < T::zero() { Record::constant(x.number) } else { x }),
         "alt" => Box::new(|k, x| if k % 2 == 0 { x } else { Record::constant(x.number) }),
         "scale" => Box::new(|k, x| x * T::from_usize(k + 1).expect("from_usize")),
+        // the closure captures a separately created variable of the same WengertList
+        "cap" => {
+            let t: usize = parts[1].parse().expect("tape");
+            let cap: Rc<T> = Record::variable(three::<T>(), tapes[t]);
+            Box::new(move |_k, x| &x * &cap)
+        }
+        // squares, and panics at its `n`-th call (counted from 0)
+        "boom" => {
+            let n: usize = parts[1].parse().expect("count");
+            let calls = std::cell::Cell::new(0usize);
+            Box::new(move |_k, x| {
+                let c = calls.get();
+                calls.set(c + 1);
+                if c == n {
+                    panic!("harness: the closure panics at this element");
+                }
+                &x * &x
+            })
+        }
         other => panic!("harness: unknown record function {}", other),
     }
 }
@@ -881,6 +959,52 @@ where
     S2: MatrixRef<(T, Index)> + NoInteriorMutability,
 {
     bin_body_lite!(a, b, op, fns)
+}
+
+macro_rules! bin_same_body {
+    ($v:expr, $op:expr, $via:expr, $fns:expr) => {{
+        let v = $v;
+        match $op {
+            "add" => match $via {
+                "val_val" => v.clone() + v,
+                "val_ref" => v.clone() + &v,
+                "ref_val" => &v + v.clone(),
+                _ => &v + &v,
+            },
+            "sub" => match $via {
+                "val_val" => v.clone() - v,
+                "val_ref" => v.clone() - &v,
+                "ref_val" => &v - v.clone(),
+                _ => &v - &v,
+            },
+            "emul" => v.elementwise_multiply(&v),
+            "ediv" => v.elementwise_divide(&v),
+            "binary" => {
+                let (f, dfx, dfy) = $fns.expect("fn");
+                v.binary(&v, |x, y| f(x, y), |x, y| dfx(x, y), |x, y| dfy(x, y))
+            }
+            other => panic!("harness: unknown binary op {}", other),
+        }
+    }};
+}
+
+/// both operands are one and the same container object
+fn t_bin_same<T, S, const D: usize>(v: RecordTensor<'static, T, S, D>, op: &str, via: &str, fns: Fns3<T>) -> RT<T, D>
+where
+    T: Elt,
+    for<'x> &'x T: NumericRef<T>,
+    S: TensorRef<(T, Index), D> + Clone,
+{
+    bin_same_body!(v, op, via, fns)
+}
+
+fn m_bin_same<T, S>(v: RecordMatrix<'static, T, S>, op: &str, via: &str, fns: Fns3<T>) -> RM<T>
+where
+    T: Elt,
+    for<'x> &'x T: NumericRef<T>,
+    S: MatrixRef<(T, Index)> + NoInteriorMutability + Clone,
+{
+    bin_same_body!(v, op, via, fns)
 }
 
 fn t_matmul_full<T, S1, S2>(a: RecordTensor<'static, T, S1, 2>, b: RecordTensor<'static, T, S2, 2>, via: &str) -> RT<T, 2>
@@ -1168,7 +1292,7 @@ where
             }
         };
         format!(
-            "shape={} const={} v={} scalar={} ## idx={}",
+            "shape={} const={} v={} scalar={} idx={}",
             show_shape(&slot.c.shape()),
             if is_const { 1 } else { 0 },
             show_list(&vals),
@@ -1259,10 +1383,15 @@ where
             Ok(x) => x,
             Err(e) => return e,
         };
-        let fns: Option<(F1<T>, F1<T>)> = if op == "unary" { Some(unary_fn::<T>(opt_arg("fn", toks).unwrap())) } else { None };
+        // separate closure instances for the container and for the scalar mirror (a `boom`
+        // closure counts its calls)
+        let list = self.slots[&an].c.history();
+        let fns: Option<(F1<T>, F1<T>)> = if op == "unary" { Some(ufn_pair::<T>(opt_arg("fn", toks).unwrap(), list)) } else { None };
+        let sfns: Option<(F1<T>, F1<T>)> = if op == "unary" { Some(ufn_pair::<T>(opt_arg("fn", toks).unwrap(), None)) } else { None };
         let slot = &self.slots[&an];
         let kr = k.as_ref();
         let fr = fns.as_ref();
+        let sfr = sfns.as_ref();
         let basic = spec.is_basic();
         let out: Result<AnyC<T>, PanicKind> = match &slot.c {
             AnyC::T0(c) => tview_basic!(0, c, &spec, v => catch(move || AnyC::T0(t_un_full::<T, _, 0>(v, op, via, kr, fr)))),
@@ -1273,13 +1402,14 @@ where
             AnyC::M(c) if basic => mview_basic!(c, &spec, v => catch(move || AnyC::M(m_un_full::<T, _>(v, op, via, kr, fr)))),
             AnyC::M(c) => mview_fancy!(c, &spec, v => catch(move || AnyC::M(m_un_lite::<T, _>(v, op, kr, fr)))),
         };
+        // the mirror runs in any case: a panicking closure leaves the earlier elements' entries
+        let shadow = self.shadow_view(&an, &offs).and_then(|recs| {
+            catch(|| recs.iter().map(|x| scalar_unary::<T>(x, op, kr, sfr)).collect::<Vec<Rc<T>>>()).ok()
+        });
         let out = match out {
             Ok(c) => c,
             Err(kind) => return panic_str(kind),
         };
-        let shadow = self.shadow_view(&an, &offs).and_then(|recs| {
-            catch(|| recs.iter().map(|x| scalar_unary::<T>(x, op, kr, fr)).collect::<Vec<Rc<T>>>()).ok()
-        });
         self.put(res, out, shadow);
         self.answer(res)
     }
@@ -1292,8 +1422,11 @@ where
             (Ok(a), Ok(b)) => (a, b),
             (Err(e), _) | (_, Err(e)) => return e,
         };
-        let fns: Option<(F2<T>, F2<T>, F2<T>)> = if op == "binary" { Some(bfn_triple::<T>(opt_arg("fn", toks).unwrap())) } else { None };
+        let list = self.slots[&a.0].c.history().or(self.slots[&b.0].c.history());
+        let fns: Option<(F2<T>, F2<T>, F2<T>)> = if op == "binary" { Some(bfn_cap::<T>(opt_arg("fn", toks).unwrap(), list)) } else { None };
+        let sfns: Option<(F2<T>, F2<T>, F2<T>)> = if op == "binary" { Some(bfn_cap::<T>(opt_arg("fn", toks).unwrap(), None)) } else { None };
         let fr = fns.as_ref();
+        let sfr = sfns.as_ref();
         let (sa, sb) = (&self.slots[&a.0], &self.slots[&b.0]);
         let (spa, spb) = (&a.1, &b.1);
         // every ownership form with the owned / borrowed source kinds; one of the operands may
@@ -1302,7 +1435,17 @@ where
         if !ba && !bb {
             return "bad-view".into();
         }
-        let out: Result<AnyC<T>, PanicKind> = if op == "matmul" {
+        // `x op x` with one and the same container object
+        let same_object = op != "matmul" && a.0 == b.0 && matches!(spa, ViewSpec::Own) && matches!(spb, ViewSpec::Own);
+        let out: Result<AnyC<T>, PanicKind> = if same_object {
+            match &sa.c {
+                AnyC::T0(x) => { let v = x.clone(); catch(move || AnyC::T0(t_bin_same::<T, _, 0>(v, op, via, fr))) }
+                AnyC::T1(x) => { let v = x.clone(); catch(move || AnyC::T1(t_bin_same::<T, _, 1>(v, op, via, fr))) }
+                AnyC::T2(x) => { let v = x.clone(); catch(move || AnyC::T2(t_bin_same::<T, _, 2>(v, op, via, fr))) }
+                AnyC::T3(x) => { let v = x.clone(); catch(move || AnyC::T3(t_bin_same::<T, _, 3>(v, op, via, fr))) }
+                AnyC::M(x) => { let v = x.clone(); catch(move || AnyC::M(m_bin_same::<T, _>(v, op, via, fr))) }
+            }
+        } else if op == "matmul" {
             match (&sa.c, &sb.c) {
                 (AnyC::T2(x), AnyC::T2(y)) if ba && bb => tview_basic!(2, x, spa, va => tview_basic!(2, y, spb, vb => catch(move || AnyC::T2(t_matmul_full::<T, _, _>(va, vb, via))))),
                 (AnyC::T2(x), AnyC::T2(y)) if bb => tview_fancy!(2, x, spa, va => tview_basic!(2, y, spb, vb => catch(move || AnyC::T2(t_matmul_lite::<T, _, _>(va, vb))))),
@@ -1328,14 +1471,22 @@ where
         };
         let out = match out {
             Ok(c) => c,
-            Err(kind) => return panic_str(kind),
+            Err(kind) => {
+                // a panicking closure: the mirror keeps the entries of the earlier pairs too
+                if sfns.is_some() && a.2 == b.2 {
+                    if let (Some(ra), Some(rb)) = (self.shadow_view(&a.0, &a.3), self.shadow_view(&b.0, &b.3)) {
+                        let _ = catch(|| ra.iter().zip(rb.iter()).map(|(x, y)| scalar_binary::<T>(x, y, op, sfr)).collect::<Vec<Rc<T>>>());
+                    }
+                }
+                return panic_str(kind);
+            }
         };
         let shadow: Option<Result<Vec<Rc<T>>, PanicKind>> = match (self.shadow_view(&a.0, &a.3), self.shadow_view(&b.0, &b.3)) {
             (Some(ra), Some(rb)) => Some(if op == "matmul" {
                 let (m, n, l) = (a.2[0].1, a.2[1].1, b.2[1].1);
                 catch(|| scalar_matmul::<T>(&ra, &rb, m, n, l))
             } else {
-                catch(|| ra.iter().zip(rb.iter()).map(|(x, y)| scalar_binary::<T>(x, y, op, fr)).collect::<Vec<Rc<T>>>())
+                catch(|| ra.iter().zip(rb.iter()).map(|(x, y)| scalar_binary::<T>(x, y, op, sfr)).collect::<Vec<Rc<T>>>())
             }),
             _ => None,
         };
@@ -1378,7 +1529,9 @@ where
         if spec.is_shared_only() {
             return "bad-view".into();
         }
-        let fns = unary_fn::<T>(opt_arg("fn", toks).unwrap());
+        let list = self.slots[&an].c.history();
+        let fns = ufn_pair::<T>(opt_arg("fn", toks).unwrap(), list);
+        let sfns = ufn_pair::<T>(opt_arg("fn", toks).unwrap(), None);
         let (f, df) = (&fns.0, &fns.1);
         macro_rules! body {
             ($v:ident) => {
@@ -1401,13 +1554,13 @@ where
             AnyC::T3(c) => tview_basic_mut!(3, c, &spec, v => body!(v)),
             AnyC::M(c) => mview_mut!(c, &spec, v => body!(v)),
         };
+        let sfr = Some(&sfns);
+        let new = self
+            .shadow_view(&an, &offs)
+            .and_then(|recs| catch(|| recs.iter().map(|x| scalar_unary::<T>(x, "unary", None, sfr)).collect::<Vec<Rc<T>>>()).ok());
         if let Err(kind) = r {
             return panic_str(kind);
         }
-        let fr = Some(&fns);
-        let new = self
-            .shadow_view(&an, &offs)
-            .and_then(|recs| catch(|| recs.iter().map(|x| scalar_unary::<T>(x, "unary", None, fr)).collect::<Vec<Rc<T>>>()).ok());
         self.shadow_store(&an, &offs, new);
         self.answer(&an)
     }
@@ -1420,7 +1573,10 @@ where
             (Ok(a), Ok(b)) => (a, b),
             (Err(e), _) | (_, Err(e)) => return e,
         };
-        let fns = bfn_triple::<T>(opt_arg("fn", toks).unwrap());
+        let list = self.slots[&a.0].c.history().or(self.slots[&b.0].c.history());
+        let fns = bfn_cap::<T>(opt_arg("fn", toks).unwrap(), list);
+        let sfns = bfn_cap::<T>(opt_arg("fn", toks).unwrap(), None);
+        let is_boom = opt_arg("fn", toks).unwrap().starts_with("boom.");
         let (f, dfx, dfy) = (&fns.0, &fns.1, &fns.2);
         // the overwritten side is `target`, the other one is only read (through a copy, so that
         // one container can be both)
@@ -1478,13 +1634,18 @@ where
             (AnyC::M(c), AnyC::M(o)) => mview_fancy!(o, ospec, vo => mview_basic_mut!(c, tspec, vt => body_lite!(vt, vo))),
             _ => return "bad-kind".into(),
         };
+        let sfr = Some(&sfns);
         if let Err(kind) = r {
+            if is_boom && a.2 == b.2 {
+                if let (Some(ra), Some(rb)) = (self.shadow_view(&a.0, &a.3), self.shadow_view(&b.0, &b.3)) {
+                    let _ = catch(|| ra.iter().zip(rb.iter()).map(|(x, y)| scalar_binary::<T>(x, y, "binary", sfr)).collect::<Vec<Rc<T>>>());
+                }
+            }
             return panic_str(kind);
         }
-        let fr = Some(&fns);
         let new = match (self.shadow_view(&a.0, &a.3), self.shadow_view(&b.0, &b.3)) {
             (Some(ra), Some(rb)) => {
-                catch(|| ra.iter().zip(rb.iter()).map(|(x, y)| scalar_binary::<T>(x, y, "binary", fr)).collect::<Vec<Rc<T>>>()).ok()
+                catch(|| ra.iter().zip(rb.iter()).map(|(x, y)| scalar_binary::<T>(x, y, "binary", sfr)).collect::<Vec<Rc<T>>>()).ok()
             }
             _ => None,
         };
@@ -1604,6 +1765,25 @@ where
             })),
         };
         if let Err(kind) = r {
+            // the closure panicked: the mirror processes the same elements; through a view the
+            // elements processed so far have been overwritten in place (an owned operand was
+            // handed over by value: the stored copy is untouched)
+            if let Some(recs) = self.shadow_view(&an, &offs) {
+                let mut done: Vec<Rc<T>> = vec![];
+                for (k, x) in recs.into_iter().enumerate() {
+                    match catch(|| sf(k, x)) {
+                        Ok(y) => done.push(y),
+                        Err(_) => break,
+                    }
+                }
+                if !matches!(spec, ViewSpec::Own) {
+                    if let Some(stored) = self.slots.get_mut(&an).unwrap().shadow.as_mut() {
+                        for (o, y) in offs.iter().zip(done.into_iter()) {
+                            stored[*o] = y;
+                        }
+                    }
+                }
+            }
             return panic_str(kind);
         }
         let new = self
@@ -1866,28 +2046,17 @@ where
             Some((a, b)) => (Some(a), Some(b)),
             None => (None, None),
         };
-        let mut obs = vec![];
-        let mut aux = vec![];
+        let mut answers = vec![];
         for ((r, n), sh) in out.into_iter().zip(names.iter()).zip([sh1, sh2].into_iter()) {
-            let a = match r {
+            answers.push(match r {
                 Err(e) => self.fix_inc(e),
                 Ok(c) => {
                     self.put(n, c, sh);
                     format!("ok {}", self.answer(n))
                 }
-            };
-            match a.split_once(" ## ") {
-                Some((o, x)) => {
-                    obs.push(o.to_string());
-                    aux.push(x.to_string());
-                }
-                None => {
-                    obs.push(a);
-                    aux.push(String::new());
-                }
-            }
+            });
         }
-        format!("{} ## {}", obs.join(" | "), aux.join(" | "))
+        answers.join(" | ")
     }
 
     fn reset_line(&mut self, toks: &[&str]) -> String {
@@ -2079,7 +2248,9 @@ where
             }
             Some(Err(kind)) => format!("DIFF({})", panic_str(kind)),
         };
-        format!("d={} scalar={}", show(&table), verdict)
+        // every derivative set has one entry per tape entry
+        let len = Vec::<T>::from(ds[0].clone()).len();
+        format!("len={} d={} scalar={}", len, show(&table), verdict)
     }
 
     /// `elem z a[/acc.<perm>] <indexes> via=<index_by|owned|mut|matrix>.<get|try>.<val|ref>`
@@ -2147,7 +2318,7 @@ where
         };
         let z: RT<T, 0> = if conv == "ref" { RecordTensor::from(&rec) } else { RecordTensor::from(rec) };
         self.put(res, AnyC::T0(z), srec.map(|r| vec![r]));
-        format!("v={} const={} scalar={} ## idx={}", number, if is_const { 1 } else { 0 }, scalar, index)
+        format!("v={} const={} scalar={} idx={}", number, if is_const { 1 } else { 0 }, scalar, index)
     }
 
     /// `scalar y z via=<val|ref>.<val|ref>`: 0-dimensional tensor -> `Record` -> 0-dimensional tensor
@@ -2247,7 +2418,7 @@ where
         macro_rules! tlayout {
             ($c:ident, $D:literal) => {
                 match <RT<T, $D> as TensorRef<(T, Index), $D>>::data_layout($c) {
-                    TLayout::Linear(names) => format!("linear:{}", names.join(",")),
+                    TLayout::Linear(names) => format!("linear:{}", show_names(&names)),
                     TLayout::NonLinear => "non_linear".to_string(),
                     TLayout::Other => "other".to_string(),
                 }
